@@ -9,7 +9,8 @@ from ..cfg import CFG
 from ..core import AnalysisError, const_value, walk_own
 from ..defuse import DefUse, Terms, show, walk_term
 from ..events import container_events, root_name
-from ..tutil import EvUnknown, ev_term, no_uids, simp
+from ..paths import var_leaves
+from ..tutil import EvUnknown, ev_term, no_uids, simp, text_parts, unmap
 from ..memo import check_no_cross_call_state
 from ..astutil import inside, live
 
@@ -121,11 +122,19 @@ def _group(ctx, f):
     ml = list(match_loops.values())[0]
     MATCHES = T.of(ml.iter)
     M = ("elem", MATCHES)
+    # "no candidates while there are no groups yet" may be spelled as an
+    # empty default:  phi([] | [c for c in ... if c in groups])
+    CAND = MATCHES
+    if CAND[0] in ("phi", "var"):
+        non_empty = [x for x in var_leaves(du, T, CAND)
+                     if x != ("list", ())]
+        if len(non_empty) == 1:
+            CAND = non_empty[0]
     ok = ok2 = False
     why = f"candidates are {show(MATCHES, 160)}"
-    if MATCHES[0] == "comp" and len(MATCHES[3]) == 1:
-        X = MATCHES[3][0][1]
-        conds = MATCHES[3][0][2]
+    if CAND[0] == "comp" and len(CAND[3]) == 1:
+        X = CAND[3][0][1]
+        conds = CAND[3][0][2]
         want_x = ("call", "builtins.set.intersection",
                   (("star", ("comp", "list",
                              ("sub", None, ("elem", PEPS)),
@@ -141,7 +150,7 @@ def _group(ctx, f):
                       and cc[2][1][:2] in (("param", p_pep), ("var", p_pep))
                       and cc[2][2] == ("elem", PEPS))
         el = ("elem", X)
-        ok2 = MATCHES[2] == el and len(conds) == 1 and conds[0][0] == "cmp" \
+        ok2 = CAND[2] == el and len(conds) == 1 and conds[0][0] == "cmp" \
             and conds[0][1] == "in" and conds[0][2] == el and (
                 is_gr(conds[0][3]) or (conds[0][3][0] == "mcall" and is_gr(
                     conds[0][3][1]) and conds[0][3][2] == "keys"))
@@ -192,10 +201,10 @@ def _group(ctx, f):
               "every visited protein is placed in a new or an existing "
               "group", f"deviates: {bad}", node=lp)
     # rename
-    NEW = ("mcall", ("const", ", "), "join", (("list", (M, PROT)),), ())
     moves = [e for e in evs if e.kind == "store" and root_name(e.recv) == GR
              and e.key != PROT]
-    ok_n = len(moves) == 1 and moves[0].key == NEW
+    NEW = moves[0].key if len(moves) == 1 else None
+    ok_n = NEW is not None and text_parts(NEW) == [M, ("const", ", "), PROT]
     ctx.check(ok_n, "C16d-group-name", f,
               "the renamed group lists the old members followed by the new "
               "protein", f"{[show(e.key, 100) for e in moves]}", node=ml)
@@ -222,8 +231,11 @@ def _group(ctx, f):
             k = r[2] if r[0] == "sub" else None
             over = k[1] if k and k[0] == "elem" else None
             # iterating the renamed group's peptides: grouped[NEW]
-            okk = over is not None and _strip_growth(over)[0] == "sub" and \
-                _strip_growth(over)[2] == NEW and root_name(over) == GR
+            okk = over is not None and ((
+                _strip_growth(over)[0] == "sub"
+                and _strip_growth(over)[2] == NEW
+                and root_name(over) == GR) or no_uids(over) == no_uids(
+                    moves[0].value))
             pl = cfg.enclosing(e.stmt, (ast.For,))
             cs = [(T.of(t), o)
                   for t, o in cfg.necessary_conditions(e.stmt)
@@ -293,6 +305,10 @@ def _read_fasta(ctx, f):
         vs = {x[1] for x in walk_term(G[2][0]) if isinstance(x, tuple)
               and x and x[0] == "var"}
         PROTEINS = vs.pop() if len(vs) == 1 else None
+    D_COMP = None
+    if D is None and kw.get("protein_map", ("x",))[0] == "comp":
+        D_COMP = kw["protein_map"]
+        D = "<comprehension>"
     ctx.require(None not in (U, S, D, PROTEINS, PEPTIDES)
                 and len({U, S, D, PROTEINS, PEPTIDES}) == 5,
                 f"{f.qual}: the maps handed to Proteins / _group_proteins "
@@ -308,8 +324,8 @@ def _read_fasta(ctx, f):
            f"{[e.kind for e in pp]}")
     if len(pe) == 1 and len(pp) == 1 and pe[0].kind == "store" and \
             pp[0].kind == "add":
-        dig, prot = pe[0].value, pe[0].key
-        src = pp[0].recv
+        dig, prot = unmap(pe[0].value), unmap(pe[0].key)
+        src = unmap(pp[0].recv)
         keyt = src[2] if src[0] == "sub" else None
         over = keyt[1] if keyt and keyt[0] == "elem" else None
         if over is not None and over[0] == "call" and \
@@ -321,8 +337,9 @@ def _read_fasta(ctx, f):
               and prot[0] == "item" and prot[2] == 0
               and prot[1][0] == "call" and prot[1][1] == FA +
               "_parse_protein" and dig[2][:1] == (("item", prot[1], 1),)
-              and over == dig and pp[0].args == (prot,)
-              and c1 == [(dig, True)] and c2 == [(dig, True)])
+              and over == dig and unmap(pp[0].args) == (prot,)
+              and [(unmap(c), o) for c, o in c1] == [(dig, True)]
+              and [(unmap(c), o) for c, o in c2] == [(dig, True)])
         why = (f"{PROTEINS}[{show(prot, 50)}] = {show(dig, 60)} under "
                f"{[show(c, 50) for c in c1]}; {show(src, 80)}.add("
                f"{[show(a, 50) for a in pp[0].args]}) under "
@@ -343,7 +360,8 @@ def _read_fasta(ctx, f):
         want_s = ("mcall", ("const", "; "), "join",
                   (("call", "builtins.sorted", (VAL,), ()),), ())
         ok = (ue[0].key == KEY and se[0].key == KEY
-              and ue[0].value == want_u and se[0].value == want_s)
+              and ue[0].value in (want_u, ("item", VAL, 0))
+              and se[0].value == want_s)
         cu, cs = _loop_conds(cfg, T, ue[0].stmt), _loop_conds(
             cfg, T, se[0].stmt)
         LEN = ("call", "builtins.len", (VAL,), ())
@@ -375,7 +393,24 @@ def _read_fasta(ctx, f):
     de = by_root(D)
     ok = len(de) == 1 and de[0].kind == "store"
     why = f"updates of {D}: {[e.kind for e in de]}"
-    if ok:
+    if D_COMP is not None:
+        # {name: prefix + name for name in proteins if not name.startswith(
+        # prefix)}
+        PRE = ("param", "decoy_prefix")
+        gens = D_COMP[3]
+        ok = False
+        if D_COMP[1] == "dict" and len(gens) == 1 and \
+                D_COMP[2][0] == "tuple":
+            k, v = D_COMP[2][1]
+            it = gens[0][1]
+            conds = [c[2] if c[0] == "un" and c[1] == "not" else ("x",)
+                     for c in gens[0][2]]
+            ok = (k == ("elem", it) and v == ("bin", "+", PRE, k)
+                  and conds == [("mcall", k, "startswith", (PRE,), ())]
+                  and any(isinstance(x, tuple) and x[:2] == (
+                      "var", PROTEINS) for x in walk_term(it)))
+        why = f"pairing is {show(D_COMP, 160)}"
+    elif ok:
         k = de[0].key
         cd = _loop_conds(cfg, T, de[0].stmt)
         PRE = ("param", "decoy_prefix")
@@ -389,7 +424,7 @@ def _read_fasta(ctx, f):
                f"{[(show(c, 60), o) for c, o in cd]}")
     ctx.check(ok, "C16b-decoy-pairing", f,
               "every non-decoy protein is paired with decoy_prefix + its "
-              "name", why, node=de[0].node if de else f.node)
+              "name", why, node=de[0].node if de else call[0])
     ok = (kw.get("decoy_prefix") == ("param", "decoy_prefix")
           and set(kw) == {"decoy_prefix", "peptide_map", "shared_peptides",
                           "protein_map", "has_decoys"})
